@@ -49,8 +49,10 @@ MANIFEST = {
             'once per rendered body, only [ \\t]*\\n after a block tag '
             'dropped); and for every top-level split point the rendering of '
             'the whole must equal the concatenation of the renderings of '
-            'the halves.',
-    'note': 'Trusted: dtmc/lex.py (25 lines; the oracle is silent wherever '
+            'the halves.  File-based templates (File / HTMLFile) render as '
+            'the string-based template of the text of their file, also with '
+            'literal text beyond ASCII.',
+    'note': 'Trusted: dtmc/lex.py (40 lines; the oracle is silent wherever '
             'it is not certain), dtmc/refsem.py and the printers of '
             'dtmc/ast.py.',
 }
